@@ -431,6 +431,43 @@ def r06_12(chk):
     chk.floor("R06.12", 1, "one yield site")
 
 
+def r06_13(chk):
+    chk.rule("R06.13", "strict and non-strict FASTA-family parsers agree on what a label line is: in _strict_parser no branch that skips a line by a constant first character (the `#` comment test) can consume a character that some caller passes as a label character (MinimalGdeParser passes '%#': GDE nucleotide records are labelled with '#') unless that branch also consults the label characters -- otherwise the strict parser drops the labels the non-strict parser reads")
+    m = chk.repo.module("parse/fasta.py")
+    fn = m.func("_strict_parser")
+    labelsets = set()
+    for c in ast.walk(m.tree):
+        if isinstance(c, ast.Call):
+            for kw in c.keywords:
+                if kw.arg in ("label_characters", "label_char") and isinstance(kw.value, ast.Constant) and isinstance(kw.value.value, str):
+                    labelsets.add(kw.value.value)
+    for f in ast.walk(m.tree):
+        if isinstance(f, ast.FunctionDef):
+            for a, dflt in zip(f.args.args[::-1], f.args.defaults[::-1]):
+                if a.arg in ("label_characters", "label_char") and isinstance(dflt, ast.Constant) and isinstance(dflt.value, str):
+                    labelsets.add(dflt.value)
+    if not labelsets:
+        raise AnalysisError("parse/fasta.py: no label character sets found")
+    chars = set("".join(labelsets))
+    lparam = next((p for p in params_of(fn) if p.startswith("label_char")), None)
+    n = 0
+    for st in walk_no_nested(fn):
+        if not (isinstance(st, ast.If) and any(isinstance(x, ast.Continue) for x in st.body)):
+            continue
+        consts = []
+        for c in ast.walk(st.test):
+            if isinstance(c, ast.Call) and isinstance(c.func, ast.Attribute) and c.func.attr == "startswith" and c.args and isinstance(c.args[0], ast.Constant) and isinstance(c.args[0].value, str):
+                consts.append(c.args[0].value)
+            if isinstance(c, ast.Compare) and isinstance(c.left, ast.Subscript) and len(c.comparators) == 1 and isinstance(c.comparators[0], ast.Constant) and isinstance(c.comparators[0].value, str):
+                consts.append(c.comparators[0].value)
+        for cst in consts:
+            n += 1
+            clash = sorted(set(cst[:1]) & chars)
+            consults = lparam is not None and lparam in {x.id for x in ast.walk(st.test) if isinstance(x, ast.Name)}
+            chk.decide(not clash or consults, "R06.13", key(m, "_strict_parser", f"skip of lines starting with {cst!r}"), m.loc(st), "the skipped first character is not a label character of any caller (or the test consults the label characters)", f"`if {norm(st.test)}: continue` comes before the label test and swallows {clash}, which a caller passes as a label character ({sorted(labelsets)}): MinimalGdeParser(['#s1','ACGT','#s2','GGCC'], strict=True) raises RecordError('missing a label') while strict=False reads both records")
+    chk.floor("R06.13", 1, "the comment test of the strict parser")
+
+
 def r06_9(chk):
     chk.rule("R06.9", "GenBank bytes parser: records are split on the line-anchored terminator b'\\n//'; because that separator begins with the newline of the previous line, every later piece starts with a newline -- the piece is left-trimmed before its first line (LOCUS) is taken, and the guard that skips the piece after the last terminator also covers the empty piece (`not piece`, not just piece.isspace())")
     from ..cfg import build
@@ -519,6 +556,7 @@ def r06_11(chk):
 
 
 def run(chk):
+    r06_13(chk)
     r06_12(chk)
     r06_11(chk)
     r06_10(chk)
